@@ -4,7 +4,7 @@ import CalVerif.Model.RangeIter
 /-! Driver for C05: runs an operation history through the `Range` model (values = `usize`)
     and prints the canonical dump after every operation.
 
-    request : `hist <op>;<op>;…`   op = `N,sr,sc,er,ec` | `E` | `F,r,c,v,r,c,v,…` | `S,row,col,v` | `R,sr,sc,er,ec`
+    request : `hist <op>;<op>;…`   op = `N,sr,sc,er,ec` | `E` | `F,r,c,v,r,c,v,…` | `S,row,col,v` | `R,sr,sc,er,ec` | `X,i,j,v` (`range[(i, j)] = v`, relative)
     reply   : `<dump>;<dump>;…`    dump = `panic` (state unchanged) or the observable state
 
     request : `iter <pat> <op>;<op>;…`   pat = string of `f` (`next`) / `b` (`next_back`)
@@ -33,7 +33,14 @@ def dump (r : Rng Nat) : String :=
   let rel := [(0, 0), (h - 1, w - 1), (h, 0), (0, w)]
   let g := ",".intercalate (rel.map fun p => showOpt (get r p.1 p.2))
   let ix := ",".intercalate (rel.map fun p => match index r p.1 p.2 with | .ok v => toString v | _ => "!")
-  s!"{se} H={h} W={w} ROWS={rowsS} CELLS={showTriples (cells r)} USED={showTriples (usedCells r)} GV={gv} G={g} IX={ix}"
+  let showRowRes (x : Res (List Nat)) := match x with
+    | .ok row => "[" ++ ".".intercalate (row.map toString) ++ "]"
+    | _ => "!"
+  let ir := ",".intercalate ([0, h - 1, h, h + 3].map fun i => showRowRes (indexRow r i))
+  let hd := match firstRow r with
+    | some row => "[" ++ ".".intercalate (row.map toString) ++ "]"
+    | none => "-"
+  s!"{se} H={h} W={w} ROWS={rowsS} CELLS={showTriples (cells r)} USED={showTriples (usedCells r)} GV={gv} G={g} IX={ix} IR={ir} HD={hd}"
 
 def parseNats (l : List String) : Option (List Nat) := l.mapM String.toNat?
 
@@ -50,6 +57,9 @@ def applyOp (r : Rng Nat) (op : String) : Option (Res (Rng Nat)) :=
     | _ => none
   | "S" :: args => match parseNats args with
     | some [a, b, v] => some (setValue r a b v)
+    | _ => none
+  | "X" :: args => match parseNats args with
+    | some [a, b, v] => some (indexSet r a b v)
     | _ => none
   | "R" :: args => match parseNats args with
     | some [a, b, c, d] => some (range r a b c d)
